@@ -25,11 +25,18 @@ def run(ctx):
         jaxp = i >= nspec
         # every fourth specification: only bin-wise constraints — the Poisson-constrained (shapesys) block then precedes the
         # Gaussian-constrained (staterror) one in the auxiliary data (the [normal, poisson] viewer then has to *reorder* consecutive runs)
-        spec, info = gen_spec.gen_spec(rng, want={'shapesys', 'staterror'}, avoid=set(gen_spec.SYS_POOL) | {'lumi'}) if i % 4 == 1 else gen_spec.gen_spec(rng, cross_channel_stat=True)
+        poi = 'mu'
+        if i % 8 == 5:
+            # … and every eighth one has no normalisation factor either (no POI): a bin-wise parameter set then starts at flat index 0
+            spec, info = gen_spec.gen_spec(rng, want={'shapesys'} if i % 16 == 5 else {'staterror'}, avoid=set(gen_spec.SYS_POOL) | {'lumi', 'normfactor'}); poi = None
+        elif i % 4 == 1:
+            spec, info = gen_spec.gen_spec(rng, want={'shapesys', 'staterror'}, avoid=set(gen_spec.SYS_POOL) | {'lumi'})
+        else:
+            spec, info = gen_spec.gen_spec(rng, cross_channel_stat=True)
         histo = rng.choice(['0', '2', '4p']); norm = rng.choice(['1', '4'])
         N = rng.randint(1, 8) if not jaxp else rng.randint(2, 3)
         pyhf.set_backend('numpy', precision='64b')
-        kw = enga.impl_kwargs(histo, norm)
+        kw = enga.impl_kwargs(histo, norm, poi=poi)
         err, m1 = enga.impl_model(pyhf, spec, kw)
         err2, mb = enga.impl_model(pyhf, spec, kw, batch_size=N)
         if m1 is None or mb is None:
@@ -45,7 +52,7 @@ def run(ctx):
         datas = []
         for p in rows:
             main, aux = gen_data(rng, m1, p); datas.append(main + aux)
-        st = enga.settings(histo, norm)
+        st = enga.settings(histo, norm, poi=poi)
         merr, res = enga.model_call(lean, spec, st, [{'q': 'config'}, {'q': 'expected_batch', 'rows': fl(rows)},
                                                      {'q': 'logpdf_terms_batch', 'rows': fl(rows), 'datas': fl(datas)}])
         ctx.count()
